@@ -529,6 +529,17 @@ theorem ws_close_terminates (mode : Mode) (st : Coap.M.Ws.St) (av : Bytes) :
   ⟨closeDrain_calls_le mode drainCount st av, (closeDrain_ok mode drainCount st av).1,
    fun h c hc => ((ws_close_drain_in_bounds mode st av h).2 c hc).2.2.1⟩
 
+/-- the hypothesis of `ws_close_drain_in_bounds` holds whenever the application can call `coap_ws_close`: every reader
+state the event loop leaves behind in the frame phase — from the state right after the handshake (`rd_header` holding the
+≤ 14 carried-over bytes) or any other `UpOk` state, after EVERY list of chunks — is `RdOk` for the 1472-byte buffer of
+`coap_read_session`, hence for the drain's 100 bytes; and so is the state in which the reader itself calls
+`coap_ws_close` (right after a refusal inside `coap_ws_read`: `ws_read_keeps_ok`) -/
+theorem ws_frames_states_ok (mode : Mode) (accept : Bytes) (chunks : List Bytes) (st st' : Coap.M.Ws.St)
+    (hup : st.up = true) (h : RdOk Coap.M.Ws.rxBuf st) (he : (Coap.M.Ws.feed mode accept st chunks).2.1 = .open st') :
+    st'.up = true ∧ RdOk Coap.M.Ws.rxBuf st' ∧ RdOk drainBuf st' :=
+  have := feed_upok mode accept chunks st ⟨hup, h⟩ st' he
+  ⟨this.1, this.2, RdOk_mono this.2 (by decide)⟩
+
 /-- observation 1 of round 2 as a theorem: once a `coap_ws_read` call has emptied the socket the loop only waits (no
 further call), whatever is left in `rd_header` — select() looks at the socket, not at `rd_header` -/
 theorem ws_close_drain_socket_empty (mode : Mode) (c : Nat) (st st' : Coap.M.Ws.St) (av : Bytes) (ret : Ret) (hav : av ≠ [])
